@@ -106,7 +106,7 @@ def search_job(cfg):
     s = Session(start, pack, flavour="forest", schedule=sc.SCHEDULES[sch], reverse=reverse, record=())
     try:
         outcome, spec = s.run()
-        events = []
+        events = [{"op": "outcome", "kind": outcome, "error": (type(spec).__name__ + ": " + str(spec)[:120]) if outcome == "error" else ""}]
         if outcome == "spec" and s.extractions:
             S = s.extractions[-1]
             with s.cdb_rec.paused():
@@ -181,14 +181,17 @@ def run(tier: str, seed: int) -> int:
     res = pmap(search_job, cfgs, procs=16, chunk=2)
     straces = [r for r in res if r["events"]]
     for r in straces:
-        run_.events += 2
-        if any(k["b"] == "REVERSE" for k in r["events"][0]["S"]):
+        run_.events += len(r["events"])
+        if len(r["events"]) < 2:
+            continue
+        if any(k["b"] == "REVERSE" for k in r["events"][1]["S"]):
             run_.nt("reverse:" + r["tid"])
         else:
             run_.nt("search:" + r["tid"])
-    run_.extra["searches_using_reverse_rules"] = sum(1 for r in straces if any(k["b"] == "REVERSE" for k in r["events"][0]["S"]))
+    run_.extra["searches_using_reverse_rules"] = sum(1 for r in straces if len(r["events"]) > 1 and any(k["b"] == "REVERSE" for k in r["events"][1]["S"]))
     if straces:
-        run_.sample({"search": straces[0]["tid"], "S": straces[0]["events"][0]["S"]})
+        ex = next(r for r in straces if len(r["events"]) > 1)
+        run_.sample({"search": ex["tid"], "S": ex["events"][1]["S"]})
         judge(run_, straces, "searches")
     run_.evaluations = len(traces) + len(straces)
     run_.rule = ("integer universes exported by TLC (root pumps) x bucket assignments + seeded random universes, each through the "
